@@ -39,9 +39,94 @@ def check_C12(rep, prog, tier):
     rep.assumptions += ['std str/String/Option models in mirsym/models.py', 'z3 is sound']
     A.differential(rep, prog, rep.seed)
     A.ob_prefix(rep, prog, N, dl)
+    subtree_listing(rep, prog, tier, dl)
 
 
-CHECKS = {'C11': check_C11, 'C12': check_C12}
+def subtree_listing(rep, prog, tier, dl):
+    """Stitch::next with a subtree filter over two-level symbolic paths (C12 clause 2, also C08's filter clause)."""
+    from .harness import stitch as S
+    import json
+    if tier == 'quick':
+        shapes = [[('closed', [(0, 2)]), ('open', [(0, 2)])], [('closed', [(0, 3)]), ('open', [(0, 1), (1, 1)])],
+                  [('open', [(0, 2)]), ('open', [(0, 2)])]]
+    else:
+        shapes = [[('closed', [(0, 2)]), ('open', [(0, 2)])], [('closed', [(0, 3)]), ('open', [(0, 1), (1, 1)])],
+                  [('open', [(0, 2)]), ('open', [(0, 2)])], [('closed', [(0, 3)]), ('open', [(0, 3)])],
+                  [('closed', [(0, 2)]), ('open', [(0, 1)]), ('open', [(0, 2)])]]
+    rep.bounds['subtree_listing_shapes'] = shapes
+    rep.bounds['subtree_listing_paths'] = "'/c' or '/d/c' per entry (form chosen by the solver), name code points symbolic in [0x2d,0x7a] minus '/', subtree '/' or '/s'"
+    tot = S.sweep_deep(prog, shapes, dl)
+    rep.functions |= tot['functions']
+    rep.models |= tot['models']
+    rep.samples += tot['samples'][:2]
+    st = dict(paths=tot['paths'], queries=tot['queries'], solver_s=round(tot['solver_s'], 2), shapes=tot['shapes_done'])
+    name = 'listing a subtree of a stitched version == entries under the subtree by whole components'
+    for b in tot['bad'][:1]:
+        sc = {'kind': 'stitch', 'scenario': b.get('scenario'), 'expect': b.get('want'), 'mirsym_got': b.get('got')}
+        out, path = runner.replay(sc, rep.prop + '_subtree')
+        reproduced = out.get('listing') is not None and out.get('listing') == b.get('got') and b.get('got') != b.get('want')
+        what = 'listing subtree %r of band %s of %s yields %s, expected %s' % (
+            b['scenario'].get('subtree'), b['scenario'].get('list_band'), json.dumps(b['scenario'].get('bands')), b.get('got'), b.get('want'))
+        rep.violation('stitch-subtree:' + b['kind'], what, path, reproduced)
+    if tot['inconclusive']:
+        rep.inconclusive += ['subtree listing: ' + x for x in tot['inconclusive'][:5]]
+        rep.add_obligation(name, 'inconclusive', st, tot['inconclusive'][:3])
+    elif tot['bad']:
+        rep.add_obligation(name, 'violated', st, tot['bad'][:2])
+    else:
+        rep.add_obligation(name, 'holds', st)
+
+
+def check_C08(rep, prog, tier):
+    from .harness import stitch as S
+    import json
+    if tier == 'quick':
+        nb, layouts = 3, [[], [(0, 1)], [(0, 2)], [(0, 1), (1, 1)], [(0, 2), (1, 1)], [(0, 0), (1, 1)], [(1, 1)]]
+        dl = tier_deadline(tier, 420, 0)
+    else:
+        nb, layouts = 4, [[], [(0, 1)], [(0, 2)], [(0, 1), (1, 1)], [(0, 2), (1, 2)], [(0, 0), (1, 1)], [(1, 1)], [(0, 1), (1, 1), (2, 1)]]
+        dl = tier_deadline(tier, 0, 2700)
+    rep.bounds = {'bands': nb, 'hunk_layouts_per_band': layouts, 'band_states': S.STATES,
+                  'entry_paths': '"/"+one symbolic code point in [0x30,0x7a], strictly increasing inside a band, unconstrained across bands',
+                  'listed_band': 'the top band of each shape (bands above the listed one cannot influence it)'}
+    rep.assumptions += ['hunk files hold what the writer put there: Snappy/JSON are modelled as exact inverses',
+                        'Exclude::nothing() (glob semantics are C15, not applicable)',
+                        'entries inside one band are sorted (C13 precondition)', 'transport model: mirsym/env.py Store']
+    tot = S.sweep(prog, nb, layouts, tier, dl)
+    rep.functions |= tot['functions']
+    rep.models |= tot['models']
+    rep.samples += tot['samples']
+    st = dict(paths=tot['paths'], queries=tot['queries'], solver_s=round(tot['solver_s'], 2), shapes=tot['shapes_done'])
+    name = 'Stitch::next listing == stitching rule, strictly ordered, terminates (%d bands)' % nb
+    seen = set()
+    for b in tot['bad']:
+        key = 'stitch:' + b['kind']
+        if key in seen:
+            continue
+        seen.add(key)
+        sc = {'kind': 'stitch', 'scenario': b.get('scenario'), 'expect': b.get('want'), 'mirsym_got': b.get('got'), 'detail': b}
+        out, path = runner.replay(sc, 'C08_stitch')
+        glist = [x for x in (b.get('got') or []) if not isinstance(x, str)]
+        gerr = [x for x in (b.get('got') or []) if isinstance(x, str)]
+        reproduced = out.get('listing') is not None and out.get('listing') == glist and b.get('got') != b.get('want') \
+            and (not gerr or gerr[0] == 'errors=%s' % out.get('errors'))
+        if b['kind'] == 'panic':
+            reproduced = bool(out.get('panic'))
+        what = 'listing band %s of %s yields %s, stitching rule says %s' % (
+            (b.get('scenario') or {}).get('list_band'), json.dumps((b.get('scenario') or {}).get('bands')), b.get('got'), b.get('want'))
+        if b['kind'] != 'wrong-listing':
+            what = '%s: %s' % (b['kind'], json.dumps(b, default=str)[:600])
+        rep.violation(key, what, path, reproduced)
+    if tot['inconclusive']:
+        rep.inconclusive += ['stitch: ' + x for x in tot['inconclusive'][:5]]
+        rep.add_obligation(name, 'inconclusive', st, tot['inconclusive'][:3])
+    elif tot['bad']:
+        rep.add_obligation(name, 'violated', st, tot['bad'][:3])
+    else:
+        rep.add_obligation(name, 'holds', st)
+
+
+CHECKS = {'C11': check_C11, 'C12': check_C12, 'C08': check_C08}
 
 
 def main():
